@@ -197,8 +197,12 @@ def check_demux(case, opts, fails):
     d, paired, rng = case.d, case.paired, case.rng
     names = ["x", "y"]
     ad = ["-g", f"x={A1}", "-g", f"y={A2}"]
+    n2 = []
     if paired and rng.random() < 0.5:
-        ad += ["-A", f"p={A3}", "-A", f"q={A2}"]
+        # one to three adapters for R2, so that the numbers of R1 and R2 adapters also differ
+        n2 = rng.choice([["p"], ["p", "q"], ["p", "q"], ["p", "q", "s"]])
+        for nm, sq in zip(n2, (A3, A2, "CCGGAATTCC")):
+            ad += ["-A", f"{nm}={sq}"]
         combinatorial = rng.random() < 0.6
     else:
         combinatorial = False
@@ -220,7 +224,6 @@ def check_demux(case, opts, fails):
     filt = sum(v for v in rc["filtered"].values() if v)
     files = sorted(f for f in os.listdir(d) if f.startswith("dm_") and f.endswith(".1.fq"))
     if combinatorial:
-        n2 = ["p", "q"]
         expect = {f"dm_{a}_{b}.1.fq" for a in names for b in n2}
         if not third:
             expect |= {"dm_unknown_unknown.1.fq"} | {f"dm_unknown_{b}.1.fq" for b in n2} | {f"dm_{a}_unknown.1.fq" for a in names}
